@@ -2,16 +2,18 @@
 """C15 - etcd Raft core safety (election safety, log matching, state-machine safety, committed entries never
 rewritten, leader completeness, HardState monotonicity).
 
-Technique (DESIGN.md C15): explicit TLA+ specification spec/EtcdRaft.tla checked by TLC, bound to the real
-raft.RawNode code by
-  B1  TLC-generated behaviours (-simulate of MC_Raft3_sim*.cfg) replayed in lockstep on real RawNodes by
-      raftsim; every projected state and the bag of in-flight messages must agree with the spec;
+Technique (DESIGN.md C15): explicit TLA+ specification spec/EtcdRaft.tla (plain and two-phase PreVote elections:
+CONSTANT PreVote) checked by TLC, bound to the real raft.RawNode code by
+  B1  TLC-generated behaviours (-simulate of MC_Raft3_sim*.cfg, PreVote = FALSE and TRUE) replayed in lockstep on
+      real RawNodes (raft.Config.PreVote accordingly) by raftsim; every projected state and the bag of in-flight
+      messages must agree with the spec;
   B3  attack schedules: TLC counterexamples of the spec with ONE rule weakened (MC_RaftAtk_*.cfg), replayed on
       the real RawNodes - correct code refuses the weakened step, code with that rule broken follows it;
-  B2  seeded random runs of 3 real RawNodes inside the spec's scope, validated line by line against EtcdRaft.tla
-      by spec/TraceEtcdRaft.tla (every event must be the spec's action, every projection and the message bag equal);
+  B2  seeded random runs of 3 real RawNodes inside the spec's scope (with and without PreVote), validated line by
+      line against EtcdRaft.tla by spec/TraceEtcdRaft.tla (every event must be the spec's action, every projection
+      and the message bag equal);
   plus seeded random schedules far outside the model (crash/restart, partitions, drop/dup, conf changes v1/v2/
-      joint/learners, compaction and snapshots, PreVote, CheckQuorum, one-entry appends) on 3-5 real RawNodes.
+      joint/learners, compaction and snapshots, PreVote with CheckQuorum, one-entry appends) on 3-5 real RawNodes.
 THE VERDICT comes only from spec/RaftObs.tla: TLC evaluates the C15 clauses on the projection of every real node
 after every event of every real run above.  exit 1 <=> RaftObs reports a MISMATCH on a real trace.
 """
@@ -28,11 +30,11 @@ T0 = time.time()
 
 RAFTSIM_SRC = os.path.join(common.ROOT, "raftsim")
 ATTACK_FILE = os.path.join(common.SPEC, "EtcdRaft_attacks.json")
-FLAGS_CHEAP = ["VoteIgnoreVoted", "NoPersistVote", "VoteIgnoreLog", "QuorumMinusOne"]
+FLAGS_CHEAP = ["VoteIgnoreVoted", "NoPersistVote", "VoteIgnoreLog", "QuorumMinusOne", "PreVoteResp"]
 # CommitAnyTerm is regenerated only with C15_REGEN_ALL=1 (1.7 M states, 2-10 min depending on load); the stored
 # schedule in spec/EtcdRaft_attacks.json is always replayed
 FLAGS_ALL = FLAGS_CHEAP + ["HeartbeatCommit", "AppendTruncates"] + (["CommitAnyTerm"] if os.environ.get("C15_REGEN_ALL") else [])
-ATTACK_OPT = {"CommitAnyTerm": {"maxents": 1}}
+ATTACK_OPT = {"CommitAnyTerm": {"maxents": 1}, "PreVoteResp": {"prevote": True}}
 
 
 def log(msg):
@@ -66,8 +68,13 @@ def tlc_model_check(cfg, workers, timeout):
 
 REQUIRED_ACTIONS = ["Campaign", "Propose", "Heartbeat", "Crash.keep", "Restart", "Drop", "Dup",
                     "Deliver.Vote", "Deliver.VoteResp", "Deliver.App", "Deliver.AppResp",
-                    "Deliver.HB", "Deliver.HBResp", "Deliver.stale", "BecomeLeader", "CommitAdvance"]
-# reported, not required in every run (rare branches): Crash.lose, Deliver.VoteResp.reject, Deliver.AppResp.reject
+                    "Deliver.HB", "Deliver.HBResp", "Deliver.stale", "BecomeLeader", "CommitAdvance",
+                    # PreVote = TRUE behaviours: both phases, won and lost pre-votes, the stale-leader reply, a (pre-)vote
+                    # response of the other phase reaching a candidate / pre-candidate (the per-state filter of stepCandidate)
+                    "Deliver.PreVote", "Deliver.PreVoteResp", "Deliver.PreVoteResp.reject", "BecomePreCandidate", "PreVoteWon",
+                    "Deliver.stale.App+HB.prevote", "Deliver.stale.PreVote", "Deliver.PreVoteResp.to-candidate"]
+# reported, not required in every run (rare branches): Crash.lose, Deliver.VoteResp.reject, Deliver.AppResp.reject,
+# PreVoteLost (about 10 of 600 PreVote behaviours), Deliver.VoteResp.to-precandidate
 
 
 def action_histogram(behaviours):
@@ -88,19 +95,36 @@ def action_histogram(behaviours):
                 inc("Crash.keep" if a.get("keep") else "Crash.lose")
             elif n == "Deliver":
                 m = a["m"]
-                stale = prev is not None and m["tm"] < prev["n"][m["to"] - 1]["term"]
+                to = prev["n"][m["to"] - 1] if prev is not None else None
+                stale = to is not None and m["tm"] < to["term"]
                 if stale:
                     inc("Deliver.stale")
+                    if b["opt"].get("prevote") and to["up"]:
+                        if m["ty"] in ("App", "HB"):
+                            inc("Deliver.stale.App+HB.prevote")
+                        elif m["ty"] == "PreVote":
+                            inc("Deliver.stale.PreVote")
                 else:
                     inc("Deliver." + m["ty"])
                     if m["rj"]:
                         inc("Deliver.%s.reject" % m["ty"])
+                    if to is not None and to["up"]:
+                        if m["ty"] == "PreVoteResp" and to["role"] == "C":
+                            inc("Deliver.PreVoteResp.to-candidate")
+                        if m["ty"] == "VoteResp" and to["role"] == "P":
+                            inc("Deliver.VoteResp.to-precandidate")
             else:
                 inc(n)
             if prev is not None and s is not None:
                 for x, y in zip(prev["n"], s["n"]):
                     if y["role"] == "L" and x["role"] != "L":
                         inc("BecomeLeader")
+                    if y["role"] == "P" and n == "Campaign" and y is s["n"][a["i"] - 1]:
+                        inc("BecomePreCandidate")
+                    if x["role"] == "P" and y["role"] == "C":
+                        inc("PreVoteWon")
+                    if x["role"] == "P" and y["role"] == "F" and n == "Deliver" and a["m"]["ty"] == "PreVoteResp" and y["term"] == x["term"]:
+                        inc("PreVoteLost")
                     if y["up"] and x["up"] and y["commit"] > x["commit"]:
                         inc("CommitAdvance")
             prev = s
@@ -348,11 +372,18 @@ def main():
 
     # ---- 1. model sanity (exhaustive) in the background
     mc_workers = 5 if QUICK else 8
+    mc_pv_workers = 3 if QUICK else 8
     MC_CFG = "MC_Raft3.cfg" if QUICK else "MC_Raft3_full.cfg"
     f_mc = pool.submit(tlc_model_check, MC_CFG, mc_workers, 600 if QUICK else 1100)
     f_faults = None
     if not QUICK:
         f_faults = pool.submit(tlc_model_check, "MC_Raft3_faults.cfg", 4, 1100)
+    # the same instances with PreVote = TRUE (two-phase election, role P, MsgPreVote / MsgPreVoteResp)
+    MC_PV_CFG = "MC_Raft3_prevote.cfg" if QUICK else "MC_Raft3_prevote_full.cfg"
+    f_mc_pv = pool.submit(tlc_model_check, MC_PV_CFG, mc_pv_workers, 600 if QUICK else 3000)
+    f_faults_pv = None
+    if not QUICK:
+        f_faults_pv = pool.submit(tlc_model_check, "MC_Raft3_prevote_faults.cfg", 4, 2000)
 
     # ---- 2. TLC-generated behaviours
     sim_jobs = []
@@ -360,7 +391,12 @@ def main():
     for k in range(nsim):
         for cfg, me in (("MC_Raft3_sim.cfg", 0), ("MC_Raft3_sim1.cfg", 1)):
             num = 60 if QUICK else 300
-            sim_jobs.append((me, pool.submit(tlc_simulate, cfg, num, 40, SEED * 1000 + k * 2 + me + 1)))
+            sim_jobs.append((me, False, pool.submit(tlc_simulate, cfg, num, 40, SEED * 1000 + k * 2 + me + 1)))
+    nsim_pv = 1 if QUICK else 4
+    for k in range(nsim_pv):
+        for cfg, me in (("MC_Raft3_sim_prevote.cfg", 0), ("MC_Raft3_sim1_prevote.cfg", 1)):
+            num = 60 if QUICK else 300
+            sim_jobs.append((me, True, pool.submit(tlc_simulate, cfg, num, 40, SEED * 1000 + 500 + k * 2 + me + 1)))
     atk_jobs = {}
     live_flags = FLAGS_CHEAP if QUICK else FLAGS_ALL
     for fl in live_flags:
@@ -403,7 +439,8 @@ def main():
     b2_jobs = []
     nb2 = 1 if QUICK else 6
     for k in range(nb2):
-        for prof, cfg in (("n3-spec", "TraceEtcdRaft.cfg"), ("n3-spec-one", "TraceEtcdRaft_one.cfg")):
+        for prof, cfg in (("n3-spec", "TraceEtcdRaft.cfg"), ("n3-spec-one", "TraceEtcdRaft_one.cfg"),
+                          ("n3-spec-prevote", "TraceEtcdRaft_prevote.cfg"), ("n3-spec-prevote-one", "TraceEtcdRaft_prevote_one.cfg")):
             p = os.path.join(work, "b2-%s-%d.ndjson" % (prof, k))
             pr = subprocess.run([sim_bin, "random", "-seed", str(SEED * 100 + 50 + k), "-runs", str(12 if QUICK else 40), "-events", "300",
                                  "-nodes", "-1", "-msgs", "-profile", prof, "-out", p],
@@ -420,19 +457,22 @@ def main():
     behaviours = []
     seen = set()
     sim_total = 0
-    for me, fj in sim_jobs:
+    sim_pv_total = 0
+    for me, pv, fj in sim_jobs:
         r, scheds = fj.result()
         if r.rc != 0 or r.violated or r.timed_out:
             common.die_infra("TLC -simulate failed (rc=%s violated=%s):\n%s" % (r.rc, r.violated, r.out[-3000:]))
         for st in scheds:
             sim_total += 1
-            h = hashlib.md5(json.dumps([x["a"] for x in st], sort_keys=True).encode()).hexdigest() + str(me)
+            sim_pv_total += 1 if pv else 0
+            h = hashlib.md5(json.dumps([x["a"] for x in st], sort_keys=True).encode()).hexdigest() + str(me) + str(pv)
             if h in seen:
                 continue
             seen.add(h)
-            behaviours.append({"id": "sim-%d" % len(behaviours), "opt": {"nodes": 3, "voters": [1, 2, 3], "learners": [], "maxents": me},
+            behaviours.append({"id": ("sim-pv-%d" if pv else "sim-%d") % len(behaviours),
+                               "opt": {"nodes": 3, "voters": [1, 2, 3], "learners": [], "maxents": me, "prevote": pv},
                                "lockstep": True, "steps": st})
-    log("TLC -simulate: %d behaviours (%d distinct) of depth 40" % (sim_total, len(behaviours)))
+    log("TLC -simulate: %d behaviours (%d distinct; %d with PreVote) of depth 40" % (sim_total, len(behaviours), sim_pv_total))
 
     attacks = {}
     if os.path.exists(ATTACK_FILE):
@@ -460,25 +500,39 @@ def main():
             natk += 1
     log("attack schedules: %d (stored %d, new from live TLC runs %d) for rules %s" % (natk, stored, live, sorted(attacks)))
 
-    sched_path = os.path.join(work, "schedules.ndjson")
-    with open(sched_path, "w") as f:
-        for b in behaviours:
-            f.write(json.dumps(b, separators=(",", ":")) + "\n")
-    rep_path = os.path.join(work, "replay.ndjson")
-    pr = subprocess.run([sim_bin, "replay", "-schedule", sched_path, "-out", rep_path], stdout=subprocess.PIPE,
-                        stderr=subprocess.STDOUT, text=True, timeout=900)
-    if pr.returncode != 0:
-        common.die_infra("raftsim replay failed:\n" + pr.stdout[-3000:])
-    results = [json.loads(l[7:]) for l in pr.stdout.splitlines() if l.startswith("RESULT ")]
-    m = re.search(r"^STATS (.*)$", pr.stdout, re.M)
-    rep_stats = json.loads(m.group(1)) if m else {}
+    # the behaviours are dealt round-robin to a few raftsim processes (each replays its share sequentially on its own RawNodes)
+    nrep = 3 if QUICK else 6
+
+    def replay_chunk(c):
+        sched_path = os.path.join(work, "schedules-%d.ndjson" % c)
+        with open(sched_path, "w") as f:
+            for b in behaviours[c::nrep]:
+                f.write(json.dumps(b, separators=(",", ":")) + "\n")
+        rep_path = os.path.join(work, "replay-%d.ndjson" % c)
+        pr = subprocess.run([sim_bin, "replay", "-schedule", sched_path, "-out", rep_path], stdout=subprocess.PIPE,
+                            stderr=subprocess.STDOUT, text=True, timeout=900)
+        return rep_path, pr
+
+    results, rep_outs = [], []
+    for rep_path, pr in pool.map(replay_chunk, range(nrep)):
+        if pr.returncode != 0:
+            common.die_infra("raftsim replay failed:\n" + pr.stdout[-3000:])
+        results += [json.loads(l[7:]) for l in pr.stdout.splitlines() if l.startswith("RESULT ")]
+        m = re.search(r"^STATS (.*)$", pr.stdout, re.M)
+        rep_outs.append((rep_path, json.loads(m.group(1)) if m else {}))
+    if len(results) != len(behaviours):
+        common.die_infra("raftsim replay returned %d results for %d behaviours" % (len(results), len(behaviours)))
     divergences = [r for r in results if r["id"].startswith("sim-") and r["diverged_at"]]
     lock_ok = sum(1 for r in results if r["id"].startswith("sim-") and not r["diverged_at"])
     lock_steps = sum(r["compared"] for r in results if r["id"].startswith("sim-"))
+    lock_ok_pv = sum(1 for r in results if r["id"].startswith("sim-pv-") and not r["diverged_at"])
+    lock_steps_pv = sum(r["compared"] for r in results if r["id"].startswith("sim-pv-"))
     atk_skipped = sum(r["skipped"] for r in results if r["id"].startswith("attack-"))
-    log("replay: %d behaviours on real RawNodes, lockstep agreed on %d (%d compared steps), diverged %d" % (
-        len(results), lock_ok, lock_steps, len(divergences)))
-    rep_parts = split_trace(rep_path, work, "replay-p", 6000)
+    log("replay: %d behaviours on real RawNodes, lockstep agreed on %d (%d compared steps; of these %d behaviours / %d steps with "
+        "PreVote), diverged %d" % (len(results), lock_ok, lock_steps, lock_ok_pv, lock_steps_pv, len(divergences)))
+    rep_parts = []
+    for c, (rep_path, _) in enumerate(rep_outs):
+        rep_parts += split_trace(rep_path, work, "replay-%d-p" % c, 6000)
     mon_jobs += [("replay", os.path.basename(p), p, pool.submit(run_monitor, p)) for p in rep_parts]
 
     # ---- 5. monitors = the verdict
@@ -510,13 +564,16 @@ def main():
     log("RaftObs: %d real traces, %d lines, %d mismatches" % (traces, lines_checked, mism_total))
 
     # ---- 5b. B2 results
-    b2_lines = b2_matched = b2_traces = 0
+    b2_lines = b2_matched = b2_traces = b2_lines_pv = b2_matched_pv = 0
     b2_div = []
     for p, cfg, fj in b2_jobs:
         ok, n, matched, r = fj.result()
         if not ok:
             common.die_infra("TraceEtcdRaft failed on %s (rc=%s):\n%s" % (p, r.rc, r.out[-3000:]))
         b2_lines += n
+        if "prevote" in cfg:
+            b2_lines_pv += n
+            b2_matched_pv += n if (matched >= n and r.rc == 0) else max(0, matched - 1)
         if matched >= n and r.rc == 0:
             b2_matched += n
             with open(p) as f:
@@ -534,8 +591,8 @@ def main():
             except Exception:
                 pass
             b2_div.append({"trace": os.path.basename(p), "line": matched, "violated": r.violated, "event": ev})
-    log("B2 trace validation against EtcdRaft.tla: %d/%d lines matched, %d traces fully accepted, %d rejected" % (
-        b2_matched, b2_lines, b2_traces, len(b2_div)))
+    log("B2 trace validation against EtcdRaft.tla: %d/%d lines matched (PreVote runs: %d/%d), %d traces fully accepted, %d rejected" % (
+        b2_matched, b2_lines, b2_matched_pv, b2_lines_pv, b2_traces, len(b2_div)))
 
     # ---- 6. vacuity guard: corrupted copies of an accepted trace must be rejected
     corr = {}
@@ -549,6 +606,17 @@ def main():
     r = f_mc.result()
     common.tlc_ok(r, MC_CFG + " exhaustive")
     log("TLC " + MC_CFG + ": %d states generated, %d distinct, depth %d, %.1fs" % (r.generated, r.distinct, r.depth, r.wall))
+    rpv = f_mc_pv.result()
+    common.tlc_ok(rpv, MC_PV_CFG + " exhaustive")
+    log("TLC " + MC_PV_CFG + " (PreVote = TRUE): %d states generated, %d distinct, depth %d, %.1fs" % (rpv.generated, rpv.distinct, rpv.depth, rpv.wall))
+    prevote_states = {"cfg": MC_PV_CFG, "states": rpv.distinct, "transitions": rpv.generated, "depth": rpv.depth, "exhaustive": True}
+    faults_pv_states = None
+    if f_faults_pv is not None:
+        rf = f_faults_pv.result()
+        common.tlc_ok(rf, "MC_Raft3_prevote_faults.cfg exhaustive")
+        faults_pv_states = {"states": rf.distinct, "transitions": rf.generated, "depth": rf.depth}
+        log("TLC MC_Raft3_prevote_faults.cfg (PreVote = TRUE; crash/restart/drop/heartbeat, one term): %d generated, %d distinct, %.1fs" % (
+            rf.generated, rf.distinct, rf.wall))
     faults_states = None
     if f_faults is not None:
         rf = f_faults.result()
@@ -561,11 +629,12 @@ def main():
     if cov_zero and not verdict.violations:
         common.die_infra("spec actions never taken by the TLC-generated behaviours: %s" % cov_zero)
 
-    panics = sum(len(s.get("panics") or []) for s in rnd_stats) + len(rep_stats.get("panics") or [])
+    panics = sum(len(s.get("panics") or []) for s in rnd_stats) + sum(len(st.get("panics") or []) for _, st in rep_outs)
     panic_samples = []
     for p, s in zip(rnd_files, rnd_stats):
         panic_samples += report_panics(verdict, "random", p, s.get("panics"))
-    panic_samples += report_panics(verdict, "replay", rep_path, rep_stats.get("panics"))
+    for rep_path, st in rep_outs:
+        panic_samples += report_panics(verdict, "replay", rep_path, st.get("panics"))
 
     # ---- 8. divergences / panics that no monitor turned into a violation
     for d in divergences[:5]:
@@ -604,9 +673,12 @@ def main():
         "traces_validated_against_impl": traces,
         "trace_lines_monitored": lines_checked,
         "monitor_mismatches": mism_total,
+        "prevote_model": prevote_states, "prevote_faults_instance": faults_pv_states,
         "lockstep_behaviours_agreed": lock_ok, "lockstep_steps_compared": lock_steps, "lockstep_divergences": len(divergences),
-        "tlc_simulated_behaviours": sim_total,
+        "lockstep_prevote_behaviours_agreed": lock_ok_pv, "lockstep_prevote_steps_compared": lock_steps_pv,
+        "tlc_simulated_behaviours": sim_total, "tlc_simulated_prevote_behaviours": sim_pv_total,
         "b2_trace_lines": b2_lines, "b2_trace_lines_matched_by_spec": b2_matched, "b2_traces_accepted": b2_traces, "b2_rejections": len(b2_div),
+        "b2_prevote_trace_lines": b2_lines_pv, "b2_prevote_trace_lines_matched_by_spec": b2_matched_pv,
         "attack_schedules": natk, "attack_rules": sorted(attacks), "attack_steps_not_applicable_on_impl": atk_skipped,
         "random_runs": nfiles * runs_per + njoint * (48 if QUICK else 120), "random_events": ev_stats,
         "panics_in_library": panics,
@@ -617,7 +689,7 @@ def main():
     assumptions = [
         "verdict = RaftObs.tla clauses evaluated by TLC on projections of real raft.RawNode state after every event (API granularity; unstable entries are not visible)",
         "disk model: entries, term/vote changes, snapshots and compactions are synced; commit-only HardState writes are not and may be lost in a crash (MustSync)",
-        "EtcdRaft.tla covers fixed membership without snapshots/PreVote/CheckQuorum; those features are exercised only by the random scheduler and judged by RaftObs",
+        "EtcdRaft.tla covers fixed membership without snapshots/CheckQuorum, with and without PreVote (PreVote only with CheckQuorum off: no leader lease); membership change, snapshots and CheckQuorum (also combined with PreVote) are exercised only by the random scheduler and judged by RaftObs",
         "proposal forwarding disabled, MaxInflightMsgs=256, MaxSizePerMsg unlimited or one entry; ReadIndex and leader transfer not exercised",
         "election timeouts are not simulated with the package RNG: Campaign() is an explicit event, followers tick with TickQuiesced",
         "a panic raised by one of the library's own log-safety assertions (tocommit out of range, conflict with committed entry, ...) in a legal schedule counts as a violation (kind safety-assertion-panic); never observed on the unchanged tree",
